@@ -115,3 +115,186 @@ Proof.
 Qed.
 
 (* TREES: appended below *)
+
+(* AVL trees, both index widths.  Each theorem is closed by [exact] of a
+   lemma proved in Avl/Capacity.v; theorems that involve a removal take the
+   link for [remove] (Avl/LinkRemove.v) as the explicit premise
+   [remove_spec_statement bits]. *)
+From Stevia Require Import Avl.Impl Avl.Tree Avl.Spec Avl.Alloc Avl.Inv Avl.LinkInsert Avl.LinkSteps
+  Avl.Master Avl.Clauses Avl.Capacity.
+
+(* inserting a list of entries one after the other, directly and as a
+   history of the operation language *)
+Theorem C07_avl_insert_all_def : forall bits s kv r,
+  insert_all bits s [] = Ok (s, []) /\
+  insert_all bits s (kv :: r) =
+    ('(s1, slot, _) <- insert bits s (fst kv) (snd kv) ;;
+     '(s2, slots) <- insert_all bits s1 r ;; Ok (s2, slot :: slots)) /\
+  ins_ops (kv :: r) = OInsert (fst kv) (snd kv) :: ins_ops r /\ ins_ops [] = [] /\
+  (settled s <-> N.of_nat (length (nodes s)) <= cap s).
+Proof. exact (fun _ _ _ _ => conj eq_refl (conj eq_refl (conj eq_refl (conj eq_refl (iff_refl _))))). Qed.
+Print Assumptions C07_avl_insert_all_def.
+
+Theorem C07_avl_insert_all_fold : forall bits s kvs,
+  insert_all bits s kvs =
+  '(s', rslots) <-
+    fold_left (fun acc kv => '(st, rslots) <- acc ;;
+                             '(st', slot, _) <- insert bits st (fst kv) (snd kv) ;;
+                             Ok (st', slot :: rslots))
+              kvs (Ok (s, [])) ;;
+  Ok (s', rev rslots).
+Proof. exact insert_all_fold. Qed.
+Print Assumptions C07_avl_insert_all_fold.
+
+(* from a state with n entries and capacity c: any c - n distinct new keys
+   all go in, each insertion succeeding without panic; every earlier entry
+   is still there with its value; the slots handed out are distinct and none
+   of them was live; the tree is then full and refuses every further
+   insertion, leaving the state as it is *)
+Theorem C07_avl_capacity_exact : forall bits s t fr term kvs,
+  Inv bits s t fr term -> okbits bits ->
+  NoDup (map fst kvs) -> (forall k, In k (map fst kvs) -> sm_find (inorder t) k = None) ->
+  N.of_nat (length kvs) = cap s - size s ->
+  exists s' slots t' fr' term',
+    insert_all bits s kvs = Ok (s', map Some slots) /\ length slots = length kvs /\
+    Inv bits s' t' fr' term' /\ cap s' = cap s /\ size s' = cap s /\ is_full s' = true /\
+    (forall k v, sm_find (inorder t) k = Some v -> sm_find (inorder t') k = Some v) /\
+    (forall k v, In (k, v) kvs -> sm_find (inorder t') k = Some v) /\
+    NoDup (slots ++ idxs t) /\ Permutation.Permutation (idxs t') (slots ++ idxs t) /\
+    (forall k v, insert bits s' k v = Ok (s', None, t_log t' k)) /\
+    (settled s ->
+     run_c bits s (ins_ops kvs) = map Ok (map (fun i => RSlot (Some i)) slots) /\
+     final_c bits s (ins_ops kvs) = Ok s' /\
+     forall k v, step_c bits s' (OInsert k v) = Ok (s', RSlot None, t_log t' k)).
+Proof. exact fill_exact. Qed.
+Print Assumptions C07_avl_capacity_exact.
+
+(* fewer also fit *)
+Theorem C07_avl_capacity_partial : forall bits kvs s t fr term,
+  Inv bits s t fr term -> okbits bits ->
+  NoDup (map fst kvs) -> (forall k, In k (map fst kvs) -> sm_find (inorder t) k = None) ->
+  N.of_nat (length kvs) <= cap s - size s ->
+  exists s' slots t' fr' term',
+    insert_all bits s kvs = Ok (s', map Some slots) /\ length slots = length kvs /\
+    Inv bits s' t' fr' term' /\ cap s' = cap s /\ length (nodes s') = length (nodes s) /\
+    size s' = size s + N.of_nat (length kvs) /\
+    (forall k, sm_find (inorder t') k =
+               match sm_find (inorder t) k with Some v => Some v | None => sm_find kvs k end) /\
+    Permutation.Permutation (idxs t') (slots ++ idxs t) /\
+    (settled s ->
+     run_c bits s (ins_ops kvs) = map Ok (map (fun i => RSlot (Some i)) slots) /\
+     final_c bits s (ins_ops kvs) = Ok s').
+Proof. exact insert_all_spec. Qed.
+Print Assumptions C07_avl_capacity_partial.
+
+(* the same at every state reachable on a buffer of fixed size by any
+   history of insertions, removals, updates and queries *)
+Theorem C07_avl_capacity_exact_reachable : forall bits, remove_spec_statement bits ->
+  forall capacity ops s,
+  okbits bits -> capacity < 2 ^ bits -> (bits <> 8 -> capacity + 1 < 2 ^ bits) ->
+  Forall no_ext ops -> final_c bits (init_c capacity capacity) ops = Ok s ->
+  exists t fr term,
+    Inv bits s t fr term /\ settled s /\ cap s = capacity /\
+    (forall k, get s k = Ok (sm_find (inorder t) k, t_log t k)) /\
+    (is_full s = true <-> size s = capacity) /\ size s <= capacity /\
+    forall kvs,
+      NoDup (map fst kvs) -> (forall k, In k (map fst kvs) -> sm_find (inorder t) k = None) ->
+      N.of_nat (length kvs) = capacity - size s ->
+      exists s' slots t' fr' term',
+        run_c bits s (ins_ops kvs) = map Ok (map (fun i => RSlot (Some i)) slots) /\
+        final_c bits s (ins_ops kvs) = Ok s' /\ length slots = length kvs /\
+        Inv bits s' t' fr' term' /\ size s' = capacity /\ is_full s' = true /\
+        (forall k v, sm_find (inorder t) k = Some v -> sm_find (inorder t') k = Some v) /\
+        (forall k v, In (k, v) kvs -> sm_find (inorder t') k = Some v) /\
+        NoDup (slots ++ idxs t) /\
+        (forall k v, step_c bits s' (OInsert k v) = Ok (s', RSlot None, t_log t' k)).
+Proof. exact fill_exact_reachable. Qed.
+Print Assumptions C07_avl_capacity_exact_reachable.
+
+(* is_full is true exactly when n = c *)
+Theorem C07_avl_is_full_iff : forall bits s t fr term,
+  Inv bits s t fr term -> (is_full s = true <-> size s = cap s) /\ size s <= cap s.
+Proof. exact is_full_iff. Qed.
+Print Assumptions C07_avl_is_full_iff.
+
+(* what is available is the free list plus the never-used slots *)
+Theorem C07_avl_available : forall bits s t fr term,
+  Inv bits s t fr term -> cap s - size s = N.of_nat (length fr) + (cap s + 1 - lseq bits s).
+Proof. exact available. Qed.
+Print Assumptions C07_avl_available.
+
+(* no storage is handed out twice: the slot of a successful insertion is not
+   the slot of any live entry; it is the head of the free list, or the
+   cursor when the free list is empty *)
+Theorem C07_avl_alloc_fresh : forall bits s t fr term k v s' new log,
+  Inv bits s t fr term -> okbits bits ->
+  insert bits s k v = Ok (s', Some new, log) ->
+  ~ In new (idxs t) /\
+  (forall k0 slot v0, t_find t k0 = Some (slot, v0) -> slot <> new) /\
+  ((exists fr', fr = new :: fr') \/ (fr = [] /\ new = lseq bits s)).
+Proof. exact insert_fresh_slot. Qed.
+Print Assumptions C07_avl_alloc_fresh.
+
+(* storage released by a removal is reusable: the slot of the removed entry
+   is no longer live, heads the free list, and is the very next one handed
+   out *)
+Theorem C07_avl_released_slot_reused : forall bits, remove_spec_statement bits ->
+  forall s t fr term k slot v,
+  Inv bits s t fr term -> okbits bits -> t_find t k = Some (slot, v) ->
+  exists s' term',
+    remove bits s k = Ok (s', Some v, t_log t k) /\
+    Inv bits s' (t_remove t k) (slot :: fr) term' /\
+    In slot (idxs t) /\ ~ In slot (idxs (t_remove t k)) /\
+    cap s' = cap s /\ size s' + 1 = size s /\ is_full s' = false /\
+    forall k2 v2, t_find (t_remove t k) k2 = None ->
+      exists s2 term2,
+        insert bits s' k2 v2 = Ok (s2, Some slot, t_log (t_remove t k) k2) /\
+        Inv bits s2 (t_insert (t_remove t k) slot k2 v2) fr term2.
+Proof. exact released_slot_reused. Qed.
+Print Assumptions C07_avl_released_slot_reused.
+
+(* non-vacuity: capacity 5, a free list of mixed age (slots 3 then 1)
+   together with a cursor that has not reached the end (sequence 5 of 6);
+   exactly three more entries fit - the recycled slots first, then the
+   never-used one - and the fourth is refused; both widths *)
+Example C07_avl_example :
+  let h0 := [OInsert 10 1; OInsert 11 2; OInsert 12 3; OInsert 13 4; ORemove 10; ORemove 12]%Z in
+  let h1 := [OIsFull; OLen; OInsert 20 5; OInsert 21 6; OIsFull; OInsert 22 7; OIsFull;
+             OInsert 23 8; OGet 11; OGet 13; OLen]%Z in
+  let outs := [RSlot (Some 1); RSlot (Some 2); RSlot (Some 3); RSlot (Some 4); RVal (Some 1%Z);
+               RVal (Some 3%Z); RBool false; RNum 2; RSlot (Some 3); RSlot (Some 1); RBool false;
+               RSlot (Some 5); RBool true; RSlot None; RVal (Some 2%Z); RVal (Some 4%Z); RNum 5] in
+  (exists s, final_c 8 (init_c 5 5) h0 = Ok s /\ size s = 2 /\ cap s = 5 /\ flh s = 3 /\ seq s = 5) /\
+  run_c 8 (init_c 5 5) (h0 ++ h1) = map Ok outs /\
+  run_c 32 (init_c 5 5) (h0 ++ h1) = map Ok outs /\
+  Forall no_ext (h0 ++ h1).
+Proof.
+  cbv zeta. split; [eexists; split; [vm_compute; reflexivity|repeat split]|].
+  split; [vm_compute; reflexivity|]. split; [vm_compute; reflexivity|]. repeat constructor.
+Qed.
+
+(* the hypotheses of the fill theorem are satisfiable: a partly filled tree
+   (3 of 5), and three keys that are not in it *)
+Example C07_avl_example_inv :
+  exists s t fr term,
+    final_c 8 (init_c 5 5) [OInsert 50 500; OInsert 30 300; OInsert 40 400]%Z = Ok s /\
+    Inv 8 s t fr term /\ okbits 8 /\ settled s /\ cap s - size s = 2 /\
+    inorder t = [(30, 300); (40, 400); (50, 500)]%Z /\
+    NoDup (map fst [(1, 1); (99, 2)]%Z) /\
+    (forall k, In k (map fst [(1, 1); (99, 2)]%Z) -> sm_find (inorder t) k = None).
+Proof.
+  destruct (inv_init 8 5) as [Hi Ha]; [reflexivity|congruence|].
+  destruct (final_inv_noremove 8 [OInsert 50 500; OInsert 30 300; OInsert 40 400]%Z
+              (init_c 5 5) E [] 1 Hi (or_introl eq_refl) (init_sizecond 8 5))
+    as (s & t & fr & term & Hf & H & Hsc & Habs).
+  - repeat constructor.
+  - apply growth_ok_weak, growth_ok_no_ext. repeat constructor.
+  - exists s, t, fr, term. split; [exact Hf|]. split; [exact H|]. split; [left; reflexivity|].
+    assert (Hio : inorder t = [(30, 300); (40, 400); (50, 500)]%Z).
+    { change (inorder t) with (sents (abs_of s t)). rewrite Habs, Ha. vm_compute. reflexivity. }
+    vm_compute in Hf. injection Hf as <-.
+    split; [vm_compute; discriminate|]. split; [vm_compute; reflexivity|].
+    split; [exact Hio|]. split.
+    + repeat constructor; cbn; intuition discriminate.
+    + rewrite Hio. intros k [<-|[<-|[]]]; reflexivity.
+Qed.
